@@ -217,7 +217,11 @@ class PCAVectorModel(MeanLinearVectorModel):
             )
         )
 
-        # check value
+        # check value (numpy scalars are accepted like their python counterparts)
+        if isinstance(value, np.floating):
+            value = float(value)
+        elif isinstance(value, np.integer):
+            value = int(value)
         if isinstance(value, float):
             if 0.0 < value <= self._total_variance_ratio():
                 # value needed to capture desired variance
